@@ -60,6 +60,8 @@ def run_driver(lines, timeout=600):
     """Pipe `lines` through the model driver; return the list of output lines."""
     if not os.path.exists(DRIVER):
         raise DriverError('driver not built: ' + DRIVER)
+    if not lines:
+        return []
     data = ('\n'.join(lines) + '\n').encode()
     p = subprocess.run([DRIVER], input=data, stdout=subprocess.PIPE,
                        stderr=subprocess.PIPE, timeout=timeout)
